@@ -135,6 +135,9 @@ func (h accountsResourceHandler) Expand(opts common.ResourceQuery[any], property
 		if opts.UsePIT() && !h.store.ledger.HasFeature(features.FeatureMovesHistory, "ON") {
 			return nil, nil, common.NewErrInvalidQuery("feature %s must be 'ON' to use effectiveVolumes with a point in time", features.FeatureMovesHistory)
 		}
+	default:
+		// the value comes straight from the request and would end up as a column alias of the statement
+		return nil, nil, common.NewErrInvalidQuery("unknown expansion '%s' for accounts", property)
 	}
 
 	selectRowsQuery := h.store.newScopedSelect().
